@@ -160,6 +160,37 @@ Theorem update_fixed_agrees :
 Proof. exact update_fixed_agrees_lemma. Qed.
 Print Assumptions update_fixed_agrees.
 
+(* The code in /repo now carries that repaired rule ([update_into_fixed]; fix a186b8b), and the
+   correspondence check compares the implementation with it alone.  On non-negative data -- the
+   data the statement speaks about -- a whole update under it gives exactly the image the
+   np.maximum rule gives (same definedness, shape, mode and pixels), so every update theorem
+   above holds of the code as it is. *)
+Theorem update_in_code_agrees :
+  forall src buf iy ix by_ bx,
+    (forall r c, nonneg_px (ipx src r c)) -> (forall r c, nonneg_px (ipx buf r c)) ->
+    match update_into_fixed src buf iy ix by_ bx, update_into src buf iy ix by_ bx with
+    | Some o', Some o => ih o' = ih o /\ iw o' = iw o /\ imode o' = imode o /\
+                         forall r c, ipx o' r c = ipx o r c
+    | None, None => True
+    | _, _ => False
+    end.
+Proof. exact update_fixed_agrees_img. Qed.
+Print Assumptions update_in_code_agrees.
+
+(* Its integer rule for all data, signed included: a zero buffer pixel takes the source value, a
+   zero source value leaves the buffer alone, two non-zero values keep the larger. *)
+Theorem update_int_in_code :
+  forall src buf out iy ix by_ bx,
+    0 <= ih buf -> 0 <= iw buf ->
+    update_into_fixed src buf iy ix by_ bx = Some out ->
+    forall p q r c sr sc,
+      selects (ih buf) by_ p r -> selects (iw buf) bx q c ->
+      selects (ih src) iy p sr -> selects (iw src) ix q sc ->
+      forall a b, is_int_mode (imode src) = true -> ipx src sr sc = PxI a -> ipx buf r c = PxI b ->
+                  ipx out r c = PxI (if (b =? 0) || (negb (a =? 0) && (b <? a)) then a else b).
+Proof. exact update_int_fixed_lemma. Qed.
+Print Assumptions update_int_in_code.
+
 (* update's validity test is "defined" on well-typed pixels (for F16x3: no channel NaN) *)
 Theorem update_validity_is_definedness :
   forall m s, px_ok m s = true -> src_valid m s = negb (undef_px s).
